@@ -39,6 +39,24 @@ func (l Leafy) Double() int        { return l.Count * 2 }
 func (l *Leafy) PtrName() string   { return "P:" + l.Name }
 func (l Leafy) First() interface{} { return l.Any }
 
+func twinA(title string, n int) interface{} {
+	type Product struct {
+		Title string
+		Price int
+	}
+	return Product{Title: title, Price: n}
+}
+
+func twinB(title string, n int) interface{} {
+	type Product struct {
+		Sku   string
+		Title string
+		Stock int
+		Extra string
+	}
+	return Product{Sku: "sku-" + title, Title: title, Stock: n, Extra: "x"}
+}
+
 // GoVal description -> actual Go value
 func buildGo(d interface{}) interface{} {
 	m, ok := d.(map[string]interface{})
@@ -94,6 +112,12 @@ func buildGo(d interface{}) interface{} {
 		p := reflect.New(rv.Type())
 		p.Elem().Set(rv)
 		return p.Interface()
+	case "twin":
+		// two DIFFERENT struct types with the same printed name (function-local types called Product)
+		if m["which"] == "A" {
+			return twinA(m["title"].(string), int(m["n"].(float64)))
+		}
+		return twinB(m["title"].(string), int(m["n"].(float64)))
 	case "leafy":
 		l := Leafy{Name: m["name"].(string), Count: int(m["count"].(float64)), Ratio: m["ratio"].(float64), Ok: m["ok"].(bool), hidden: "secret",
 			URL: "u:" + m["name"].(string), UserID: int(m["count"].(float64)) + 7}
@@ -300,12 +324,37 @@ func pathExpr(path []interface{}) J {
 	return e
 }
 
+// pathExprFrom: the first step (a field / key that is an identifier) is the top-level variable
+func pathExprFrom(path []interface{}) J {
+	first := path[0].(map[string]interface{})
+	e := eId(first["f"].(string))
+	for _, st := range path[1:] {
+		step := st.(map[string]interface{})
+		if n, ok := step["f"].(string); ok {
+			e = eDot(e, n)
+		} else if k, ok := step["k"].(string); ok {
+			e = eIdx(e, eStr(k))
+		} else if i, ok := step["i"].(float64); ok {
+			e = eIdx(e, eNum(strconv.Itoa(int(i))))
+		} else if m, ok := step["m"].(string); ok {
+			e = eCall(eDot(e, m))
+		}
+	}
+	return e
+}
+
 func runGoPath(c Case) interface{} {
 	root := buildGo(c["val"])
 	path := asList(c["path"])
 	e := pathExpr(path)
+	var data interface{} = map[string]interface{}{"x": root}
+	if isRoot, _ := c["root"].(bool); isRoot {
+		// the value IS the page data: its fields / keys are the template's top-level variables
+		e = pathExprFrom(path)
+		data = root
+	}
 	ast := pugDoc([]interface{}{nText("["), nBuf(e, true), nText("]")})
-	res := renderOne(ast, map[string]interface{}{"x": root}, false, nil)
+	res := renderOne(ast, data, false, nil)
 	out := J{"class": res.Class, "out": res.Out, "msg": res.Msg, "js": printExpr(e)}
 	v, ok := goWalk(root, path)
 	text, leaf := "", false
@@ -349,8 +398,11 @@ func (g *gv) leaf() J {
 	}
 }
 
-var fieldNames = []string{"Name", "Title", "Count", "Items", "Inner", "Value", "ProductID", "URL", "X", "Data", "IsOk", "HTMLBody", "Aa"}
-var mapKeys = []string{"key", "name", "a", "other", "Upper", "with space", "id", "x1", "é"}
+// field and key names include names of registered template functions (trim, debug, range, capitalize: a member is not a call) and
+// exported names whose first letter is not ASCII (lower-camel folding is by rune, not by byte)
+var fieldNames = []string{"Name", "Title", "Count", "Items", "Inner", "Value", "ProductID", "URL", "X", "Data", "IsOk", "HTMLBody", "Aa",
+	"Trim", "Debug", "Range", "Capitalize", "Übersicht", "Éditeur", "Ωmega", "Яблоко"}
+var mapKeys = []string{"key", "name", "a", "other", "Upper", "with space", "id", "x1", "é", "trim", "debug", "capitalize", "range", "truncate"}
 
 func (g *gv) val(depth int) J {
 	r := g.r
@@ -583,6 +635,26 @@ func genC11(r *Rng, n int, tier string, emit func(Case)) {
 		if len(p) == 0 {
 			continue
 		}
-		emit(Case{"kind": "gopath", "val": d, "path": p, "absent": absent, "bucket": map[bool]string{true: "absent", false: "present"}[absent], "plen": len(p)})
+		c := Case{"kind": "gopath", "val": d, "path": p, "absent": absent, "bucket": map[bool]string{true: "absent", false: "present"}[absent], "plen": len(p)}
+		// the value as the page data itself (fields become top-level variables), when the path starts with an identifier field
+		if first, ok := p[0].(J); ok && (d["k"] == "struct" || d["k"] == "map") && g.r.Chance(1, 3) {
+			// (a top-level key named like a registered template function is that function in the template: not a data path)
+			isFunc := map[string]bool{"trim": true, "debug": true, "range": true, "capitalize": true, "truncate": true, "json": true, "x": false}
+			if f, ok := first["f"].(string); ok && isIdent(f) && f != "missing" && f != "noSuchField" && !isFunc[f] {
+				c["root"] = true
+				c["bucket"] = c["bucket"].(string) + "/root"
+			}
+		}
+		emit(c)
+		if i%40 == 7 {
+			// two struct types with the same printed name, one after the other in the same process
+			t := []string{"book", "pen", "<b>"}[g.r.Intn(3)]
+			for _, w := range []string{"A", "B", "A"} {
+				for _, f := range []string{"title", "price", "sku", "stock", "extra"} {
+					emit(Case{"kind": "gopath", "val": J{"k": "twin", "which": w, "title": t, "n": g.r.Range(1, 99)}, "path": []interface{}{J{"f": f}},
+						"absent": false, "bucket": "twin", "plen": 1})
+				}
+			}
+		}
 	}
 }
